@@ -97,4 +97,28 @@ theorem C07_eager_diverges :
 example : ∃ fuel c, reduce .NOR 0 fuel kOmega = some (var 1, c) :=
   C07_nor kOmega (var 1) C07_eager_diverges.1 C07_eager_diverges.2.1
 
+/-- the same for the other two eager orders: on `(λ.2) Ω` the hybrid applicative order and call-by-value loop as well
+(both evaluate the argument `Ω` before contracting), so with limit 0 they return for no fuel at all — while NOR, HNO, CBN and
+HSP all terminate on it (`C07_nor`, `C07_hno`, `C07_cbn`, `C07_hsp`; its normal form `var 1` is also its head normal form) -/
+theorem C07_eager_diverges_hap_cbv :
+    (∀ fuel, reduce .HAP 0 fuel kOmega = none) ∧ (∀ fuel, reduce .CBV 0 fuel kOmega = none) := by
+  have key : ∀ o : Order, stepOrd o kOmega = some kOmega → ∀ fuel, reduce o 0 fuel kOmega = none := by
+    intro o hl fuel
+    cases hr : reduce o 0 fuel kOmega with
+    | none => rfl
+    | some r =>
+      obtain ⟨t', c⟩ := r
+      have hs := reduce_sound o 0 fuel kOmega t' c hr
+      have ht' : t' = kOmega := no_nf_of_loop hl c t' hs.1
+      have := hs.2.2 (Or.inl rfl)
+      rw [ht'] at this
+      rw [hl] at this; cases this
+  exact ⟨key .HAP (by decide), key .CBV (by decide)⟩
+
+example : (∃ fuel c, reduce .HNO 0 fuel kOmega = some (var 1, c)) ∧ (∃ fuel w c, reduce .CBN 0 fuel kOmega = some (w, c)) :=
+  ⟨C07_hno kOmega (var 1) C07_eager_diverges.1 C07_eager_diverges.2.1,
+   by
+    obtain ⟨f, w, c, h, _⟩ := C07_cbn kOmega (var 1) C07_eager_diverges.1 (by decide)
+    exact ⟨f, w, c, h⟩⟩
+
 end LC
